@@ -176,6 +176,9 @@ type evLog struct {
 	v   vsched.Var
 	e   *vsched.Exec
 	log []string // "<event>@<virtual time>"
+	// set by a body that could not place an action where the case wants it (a harness error, not a verdict)
+	misaligned string
+	explored   bool
 }
 
 func (l *evLog) add(ev string) {
@@ -221,6 +224,37 @@ type outage struct {
 	// only socket (which closes the manager) then Connect(); "manager": Manager.Close() then Connect(). A manager
 	// that was closed once backs off like a fresh one
 	reopen string
+	// connectAt > 0: while the manager sleeps in the back-off before reconnection attempt number connectAt (1 = the
+	// first one; aligned in virtual time: 100 ms into a back-off of at least ReconnectionDelay/2) the application
+	// calls Connect() - connectWho "same": on the socket that lost its connection (a "retry now" button), "other": on
+	// the socket of another namespace of the same manager (opened for the first time), "both": one after the other.
+	// The attempts and their limit belong to the manager: asking for the connection while it is already being
+	// re-established neither adds attempts nor a second reconnect_failed
+	connectAt  int
+	connectWho string
+	// connectInDial (needs dialTime > 0): the same call, but 100 ms into the DIAL of attempt number connectAt (the
+	// attempt has been announced, its failure has not) instead of the back-off before it
+	connectInDial bool
+}
+
+func (o outage) String() string {
+	s := fmt.Sprintf("outage of %d dials, limit %d, dial time %v", o.j, o.limit, o.dialTime)
+	if o.connectAt > 0 {
+		where := "the back-off before"
+		if o.connectInDial {
+			where = "the dial of"
+		}
+		s += fmt.Sprintf(", Connect() on %s socket(s) during %s attempt %d", o.connectWho, where, o.connectAt)
+	}
+	return s
+}
+
+// attemptsExpected: reconnection attempts the outage leads to (the back-offs Connect() can be placed in)
+func (o outage) attemptsExpected() int {
+	if o.limit > 0 && o.j >= int(o.limit) {
+		return int(o.limit)
+	}
+	return o.j + 1
 }
 
 func reconnectBody(o outage, lg *evLog, after func(sock sio.ClientSocket, srvGot *[]string, v *vsched.Var)) func(e *vsched.Exec) func() vx.Result {
@@ -241,6 +275,9 @@ func reconnectBody(o outage, lg *evLog, after func(sock sio.ClientSocket, srvGot
 			s.OnEvent("m", func(tag string) { v.Do(func() { srvGot = append(srvGot, tag) }) })
 			v.Do(func() { ssocks = append(ssocks, s) })
 		})
+		if o.connectAt > 0 {
+			srv.Of("/b").OnConnection(func(s sio.ServerSocket) {})
+		}
 		failedDials := 0
 		down := false
 		link.OnRequest = func(n int, r *http.Request) bool {
@@ -298,6 +335,37 @@ func reconnectBody(o outage, lg *evLog, after func(sock sio.ClientSocket, srvGot
 		link.V.Do(func() { down = true })
 		lg.add("cut")
 		sio.VerifAbruptClose(ssocks[0])
+		if o.connectAt > 0 {
+			// the manager is asleep in the back-off before attempt number connectAt: the connection loss (or the
+			// failure of the previous attempt) has been announced, the next attempt has not
+			wantAnnounced := o.connectAt - 1
+			if o.connectInDial {
+				wantAnnounced = o.connectAt
+				vsched.Await(func() bool { return lg.count("attempt")/2 == o.connectAt })
+			} else if o.connectAt == 1 {
+				vsched.Await(func() bool { return lg.count("disconnect") == 1 })
+			} else {
+				vsched.Await(func() bool { return lg.count("error") == o.connectAt-1 })
+			}
+			vsched.Sleep(100 * time.Millisecond)
+			if n, ne := lg.count("attempt")/2, lg.count("error"); n != wantAnnounced || ne != o.connectAt-1 {
+				// the alignment is the harness's business: never a verdict
+				lg.misaligned = fmt.Sprintf("Connect() misplaced (%v): %d attempts and %d failures were announced already", o, n, ne)
+				if lg.explored {
+					vsched.Await(func() bool { return false }) // reported as HARNESS-ERROR by the explorer
+				}
+				return func() vx.Result { return vx.Result{Outcome: "harness: " + lg.misaligned} }
+			}
+			lg.add("Connect()")
+			if o.connectWho == "same" || o.connectWho == "both" {
+				sock.Connect()
+			}
+			if o.connectWho == "other" || o.connectWho == "both" {
+				other := mgr.Socket("/b", nil)
+				other.OnConnect(func() { lg.add("connect/b") })
+				other.Connect()
+			}
+		}
 		if after != nil {
 			after(sock, &srvGot, &v)
 		}
@@ -305,7 +373,7 @@ func reconnectBody(o outage, lg *evLog, after func(sock sio.ClientSocket, srvGot
 			var r vx.Result
 			r.Outcome = strings.Join(lg.log, " ")
 			key := func(s string) string { return "reconnect: " + s }
-			what := fmt.Sprintf("outage of %d dials, limit %d, dial time %v: %v", o.j, o.limit, o.dialTime, lg.log)
+			what := fmt.Sprintf("%v: %v", o, lg.log)
 			if o.offAll {
 				what = "after Manager.OffAll() and a fresh set of handlers, " + what
 			}
@@ -487,7 +555,7 @@ func runFlap(j1, j2 int, r *vx.Report) {
 
 func reconnectScenario(name string, o outage, bound int) *vx.Scenario {
 	sc := &vx.Scenario{Name: name, Bound: bound, Horizon: 3 * time.Minute, EarlyTimers: false}
-	sc.Body = func(e *vsched.Exec) func() vx.Result { return reconnectBody(o, &evLog{}, nil)(e) }
+	sc.Body = func(e *vsched.Exec) func() vx.Result { return reconnectBody(o, &evLog{explored: true}, nil)(e) }
 	return sc
 }
 
@@ -883,6 +951,30 @@ func manualReopen(name string, what string, bound int) *vx.Scenario {
 	return sc
 }
 
+// TODO (not registered: violates on the unchanged tree, with one deviation): a second Connect() on a socket that is not
+// connected subscribes the socket to its manager a second time (clientSocket.registerSubEvents does not look at what it
+// has registered already). When the reconnection SUCCEEDS the manager runs both 'open' subscriptions one after the other;
+// if the CONNECT packet of the first one is sent and answered before the second one runs (schedule: the goroutine started
+// by sendConnectPacket runs ahead of the forEach goroutine of Manager.openHandlers), the second one finds the socket
+// connected instead of connect-pending and sends CONNECT for the namespace again; the server then drops the whole
+// connection, and a second disconnect / reconnection cycle follows (2 disconnect, 2 reconnect, 3 reconnect_attempt events
+// for one outage). The default schedule (and every schedule of the cases where the reconnection does not succeed) is in
+// the registered list; this one waits for a decision on the repository's side.
+const todoSecondConnectCallThenReconnectionSucceeds = false
+
+// TODO (not registered: violates on the unchanged tree at the default schedule, no deviation needed): the same Connect()
+// call placed in the DIAL of a reconnection attempt (a dial that takes time, here 20 s until it times out) instead of the
+// back-off before it. clientSocket.Connect skips Manager.open() only while the manager's state is 'reconnecting'; during
+// the dial of an attempt Manager.connect has set it to 'connecting', so the open() is started and parks on connectMu
+// behind the whole reconnection loop. When the loop has given up (reconnect_failed announced) the parked open() dials
+// once more, fails, finds the back-off counter reset and starts a complete new reconnection cycle: with limit 2 and an
+// outage of 4 dials, 4 reconnect_attempt / 3 reconnect_error events and a reconnection after reconnect_failed, e.g.
+// [cut@1s attempt:1@1.86s error@21.86s attempt:2@24.05s Connect()@24.15s error@44.05s failed@44.05s attempt:1@1m5.33s
+// error@1m25.33s attempt:2@1m26.70s connect reconnect]. Same on the socket of another namespace. The case where the
+// reconnection succeeds (outage1-limit2) passes. Waits for a decision on the repository's side (candidate: Connect()
+// also skips open() while a reconnection loop is running, i.e. a flag held for the duration of reconnect(false)).
+const todoConnectCallDuringTheDialOfAnAttempt = false
+
 func permutations(s string) []string {
 	if len(s) <= 1 {
 		return []string{s}
@@ -927,7 +1019,19 @@ func scenarios(tier string) []*vx.Scenario {
 		reconnectScenario("reconnect/outage2-unlimited", outage{j: 2}, b),
 		reconnectScenario("reconnect/outage2-limit2", outage{j: 2, limit: 2}, b),
 		reconnectScenario("reconnect/outage1-limit3-dial-timeout", outage{j: 1, limit: 3, dialTime: 20 * time.Second}, b),
+		// the application asks for the connection (Connect()) while the manager is in a back-off of its reconnection
+		reconnectScenario("reconnect/outage4-limit2-Connect-same-socket-during-back-off-2", outage{j: 4, limit: 2, connectAt: 2, connectWho: "same"}, b),
+		reconnectScenario("reconnect/outage3-limit2-Connect-both-sockets-during-back-off-1", outage{j: 3, limit: 2, connectAt: 1, connectWho: "both"}, b),
+		reconnectScenario("reconnect/outage1-limit2-Connect-other-namespace-during-back-off-2", outage{j: 1, limit: 2, connectAt: 2, connectWho: "other"}, b),
 	)
+	if todoSecondConnectCallThenReconnectionSucceeds {
+		s = append(s, reconnectScenario("reconnect/outage1-limit2-Connect-both-sockets-during-back-off-2", outage{j: 1, limit: 2, connectAt: 2, connectWho: "both"}, b))
+	}
+	if todoConnectCallDuringTheDialOfAnAttempt {
+		s = append(s, reconnectScenario("reconnect/outage4-limit2-dial-timeout-Connect-same-socket-during-dial-2", outage{j: 4, limit: 2, dialTime: 20 * time.Second, connectAt: 2, connectWho: "same", connectInDial: true}, b))
+		s = append(s, reconnectScenario("reconnect/outage4-limit2-dial-timeout-Connect-other-namespace-during-dial-1", outage{j: 4, limit: 2, dialTime: 20 * time.Second, connectAt: 1, connectWho: "other", connectInDial: true}, b))
+		s = append(s, reconnectScenario("reconnect/outage1-limit2-dial-timeout-Connect-other-namespace-during-dial-1", outage{j: 1, limit: 2, dialTime: 20 * time.Second, connectAt: 1, connectWho: "other", connectInDial: true}, b))
+	}
 	for _, x := range s {
 		if x.Bound >= 2 {
 			x.Shards = 8
@@ -940,7 +1044,7 @@ func main() {
 	vx.Main(vx.Config{
 		Property: "C15",
 		Level:    "model_checking",
-		Rule: "back-off: full grid of (ReconnectionDelay, ReconnectionDelayMax, jitter, attempt number incl. overflowing ones, random draw) with the random draw scripted, and the back-off objects NewManager builds from 6 configurations x 4 jitters (unset fields = defaults; delay above max); reconnect machine: outage of j = 0..5 failed dials x attempt limit 0..5 x {refused at once, dial times out after 20 s}, each executed on the real Manager/Server pair in virtual time and judged on the timestamped reconnect_* events; " +
+		Rule: "back-off: full grid of (ReconnectionDelay, ReconnectionDelayMax, jitter, attempt number incl. overflowing ones, random draw) with the random draw scripted, and the back-off objects NewManager builds from 6 configurations x 4 jitters (unset fields = defaults; delay above max); reconnect machine: outage of j = 0..5 failed dials x attempt limit 0..5 x {refused at once, dial times out after 20 s}, each executed on the real Manager/Server pair in virtual time and judged on the timestamped reconnect_* events; the same grid with the application calling Connect() while the manager sleeps in a back-off of its reconnection (every back-off the outage has x {the socket that lost its connection, the socket of another namespace of the manager, both}), three of them also explored to the deviation bound; " +
 			"offline traffic: all 24 orders of {plain, volatile, ack, ack+timeout} (plus volatile chained with a timeout in either order) emitted while disconnected plus before/during/after placements, an emitter on another goroutine racing the completion of the reconnection, Disconnect() directly followed by Connect(), and two sockets of one Manager emitting while disconnected, explored to the deviation bound. distinct_nontrivial = grid points with attempt > 0 and jitter in (0,1] + outage cases + deviating schedules",
 		Scenarios: scenarios,
 		Budget: func(tier string) time.Duration {
@@ -952,7 +1056,7 @@ func main() {
 		Extra: func(tier string, r *vx.Report) {
 			backoffGrid(tier, r)
 			backoffViaManager(r)
-			n := 0
+			n, nConnect := 0, 0
 			for j := 0; j <= 5; j++ {
 				for limit := uint32(0); limit <= 5; limit++ {
 					for _, dt := range []time.Duration{0, 20 * time.Second} {
@@ -961,6 +1065,20 @@ func main() {
 							runOutage(outage{j: j, limit: limit, offAll: true}, r)
 							runOutage(outage{j: j, limit: limit, reopen: "socket"}, r)
 							runOutage(outage{j: j, limit: limit, reopen: "manager"}, r)
+						}
+						// Connect() during every back-off the outage has, on the same socket / another namespace's / both
+						// (with a dial that times out: the first and the last back-off, both sockets)
+						base := outage{j: j, limit: limit, dialTime: dt}
+						for at := 1; at <= base.attemptsExpected(); at++ {
+							for _, who := range []string{"same", "other", "both"} {
+								if dt > 0 && (who != "both" || (at != 1 && at != base.attemptsExpected())) {
+									continue
+								}
+								o := base
+								o.connectAt, o.connectWho = at, who
+								runOutage(o, r)
+								nConnect++
+							}
 						}
 						n++
 					}
@@ -973,7 +1091,8 @@ func main() {
 				}
 			}
 			r.Extra["outage_cases"] = n
-			r.States += n
+			r.Extra["outage_cases_with_Connect_during_a_back_off"] = nConnect
+			r.States += n + nConnect
 		},
 		Assumptions: []string{
 			"virtual time; the in-process link refuses dials (at once or after a dial timeout) - a black-holed dial without any timeout would block eio.Dial for ever and is not a case the library can do anything about",
